@@ -107,6 +107,11 @@ func (c10) Run(t *tape.Tape, st *Stats) *Violation {
 	dstOpaque := t.Chance(1, 5)
 	par := parallelismOf(t, rect.Dy())
 	sc, scDesc := DrawSchedule(t, [4]int{2, 3, 3, 4})
+	pre := drawEarlier(t, srcKind, rect)
+	var preDst *Img
+	if pre.On {
+		preDst = makeImg(t, dst.Kind, image.Rectangle{Min: dst.Rect.Min, Max: dst.Rect.Min.Add(pre.Img.Rect.Size())}, t.Bool())
+	}
 
 	// reference model, computed before the run from a snapshot
 	snap := src.clone()
@@ -129,6 +134,8 @@ func (c10) Run(t *tape.Tape, st *Stats) *Violation {
 	}
 	simrt.ResetSteps(2000000) // a run of this size takes a few thousand steps; beyond the budget it is a livelock
 	defer simrt.ResetSteps(0)
+	pre.run(func() { tr.image(preDst.View.(draw.Image), pre.Img.View, pre.Par) })
+	simrt.ResetSteps(2000000)
 	racesBefore := simrt.RaceErrors()
 	var panicked interface{}
 	var atReturn [][]uint8
@@ -159,6 +166,7 @@ func (c10) Run(t *tape.Tape, st *Stats) *Violation {
 	st.Fault("preemption", sc.Kind != simrt.SerialPerm, res.NSwitch > par+1)
 	st.Fault("preemption_inside_worker_closure", sc.Kind == simrt.SiteBias, res.Probes[simrt.ProbeHotPreempt] > 0)
 	st.Probe("in_place", inPlace)
+	st.Probe("earlier_call_in_the_same_run", pre.On)
 	st.Probe("sub_image_destination", dst.Parent.Bounds() != dst.Rect)
 	st.Probe("destination_larger_than_source", !inPlace && dst.Rect.Size() != src.Rect.Size())
 	st.Probe("parallelism_gt_rows", par > rect.Dy())
@@ -167,7 +175,7 @@ func (c10) Run(t *tape.Tape, st *Stats) *Violation {
 	if res.TasksStepped >= 2 && res.NSwitch >= 1 {
 		st.Mark(tape.Mix(res.SeqHash, tape.HashString(tr.name+path), uint64(srcKind), uint64(par)))
 	}
-	desc := fmt.Sprintf("%s src=%s%v%s dst=%s%v%s inPlace=%v par=%d", tr.name, kindNames[src.Kind], src.Rect, subNote(src, srcOpaque), kindNames[dst.Kind], dst.Rect, subNote(dst, dstOpaque), inPlace, par)
+	desc := fmt.Sprintf("%s src=%s%v%s dst=%s%v%s inPlace=%v par=%d", tr.name, kindNames[src.Kind], src.Rect, subNote(src, srcOpaque), kindNames[dst.Kind], dst.Rect, subNote(dst, dstOpaque), inPlace, par) + pre.Desc
 	render := func() interface{} {
 		return map[string]interface{}{"case": desc, "schedule": scDesc, "steps": res.Steps, "tasks": res.Tasks, "context_switches": SwitchList(res), "path": path}
 	}
@@ -179,7 +187,7 @@ func (c10) Run(t *tape.Tape, st *Stats) *Violation {
 		if races > 0 {
 			r["race_report"] = trimText(lastRace, 6000)
 		}
-		return &Violation{Class: class, Sig: sig, Detail: detail + " [" + desc + "; " + scDesc + "]", Render: r}
+		return &Violation{Class: class, Sig: sig, Detail: detail + " [" + desc + "; " + scDesc + "]", Render: r, OwnHistory: pre.On}
 	}
 	if races > 0 {
 		lastRace = NewRaceText()
